@@ -26,6 +26,7 @@ func propC09(a *Analysis, r *Registry) {
 		a.CheckFresh(r, "A-3 fresh-result", fr.fn, fr.idx)
 	}
 	propC09copy(a, r, b)
+	sweepC09(a, r, b)
 	for _, n := range []string{"stats.Mean", "stats.Variance", "stats.StdDev", "stats.GeoMean", "stats.Bounds", "stats.MeanCI",
 		"stats.(Sample).Bounds", "stats.(Sample).Sum", "stats.(Sample).Weight", "stats.(Sample).Mean", "stats.(Sample).GeoMean",
 		"stats.(Sample).Variance", "stats.(Sample).StdDev", "stats.(Sample).Copy", "stats.(*Sample).Sort",
